@@ -87,7 +87,7 @@ check("C02", "acknowledged pushes read back identically", "exploration",
       "Trusted: the naive map model; collections run under a retain-everything policy here (policy-dependent retention is C05's oracle); by-digest visibility of manifests "
       "affected by open finding C02/orphaned-child is not asserted (counted in evidence).",
       "DESIGN.md §3 C02",
-      [R("^TestC02$", 4000, 180000, steps=40), R("^TestC02Faults$", 8000, 300000, variant="vfs")])
+      [R("^TestC02$", 4000, 180000, steps=40), R("^TestC02Faults$", 12000, 300000, variant="vfs")])
 
 check("C03", "tags are a last-writer-wins map; listing and paging exact", "exploration",
       "rapid state machine vs model map tag->digest; Link chains followed to the end; n/last boundary values",
